@@ -32,6 +32,7 @@ class Ctx:
         self.trace = []
         self.pc = []
         self.obligations = []
+        self.trivial = []
         self.solver = z3.Solver()
         self.solver.set("timeout", explorer.feas_timeout_ms)
         self.counter = {}
@@ -104,10 +105,12 @@ class Ctx:
         """Proof obligation pc => cond; afterwards cond is assumed."""
         if isinstance(cond, bool):
             if cond:
+                self.trivial.append((label, kind))
                 return
             cond = z3.BoolVal(False)
         cond_s = z3.simplify(cond)
         if z3.is_true(cond_s):
+            self.trivial.append((label, kind))      # decided by evaluation / simplification on this path: counted, no solver call
             return
         self.obligations.append(Obligation(label, kind, self.pc, cond, site, meta))
         self.assume(cond)
